@@ -21,6 +21,9 @@ CLAIMED = {
     'C07': dict(design='DESIGN.md §3 C07', technique='deterministic simulation: seeded marking-operation histories on evolving subjects under a steered simulated clock; set-of-pairs reference model with path-tree ancestry, query-agreement and metamorphic oracles; ddmin replay',
                 text='Seeded search over histories of add/remove/set/clear (object-level and granular) and get_markings/is_marked (all inherited x descendants x kind-switch combinations) on SDO/SRO objects, plain dicts and marking definitions of both spec versions, with selectors from an own path enumerator (prefix siblings, list indices, nested paths) and marking-ref and language markings.',
                 note='Trusts: the set model is what the property states; selectors that descend into embedded library objects may be refused for object subjects (C08 matter); is_marked is checked for a single marking or None.'),
+    'C13': dict(design='DESIGN.md §3 C13', technique='deterministic simulation: invariant monitor (deep fingerprints of every argument and pooled value before/after) around a seeded mix of 18 kinds of public calls incl. failing calls and calls interrupted by injected I/O faults/crashes; ddmin replay',
+                text='Seeded search over sequences of public operations (constructors with nested arguments, parse, deepcopy, versioning, markings, bundles, factory defaults, store add/read/save/load on the simulated disk, registration, attribute assignment) on a shared pool of caller-owned containers and library objects; after every call - successful, failing or fault-interrupted - every argument and every pooled value must be value-identical, and deep copies must be equal and disjoint.',
+                note='Trusts: own recursive fingerprint walker (types, key order, values, datetime precision metadata) and serialize() text as the observation of "value-identical".'),
 }
 
 NA = {
